@@ -1,6 +1,7 @@
 import Mp.DecProofs
 import Mp.CmpFunc
 import Mp.AnyOfProofs
+import Mp.NumeralProofs
 /-! C05 — property theorems (proved in the imported modules; statements are checked there, axioms audited here). -/
 #print axioms Mp.Dec.cmp_spec
 #print axioms Mp.Dec.trichotomy
@@ -19,3 +20,6 @@ import Mp.AnyOfProofs
 #print axioms Mp.equal_str_vs_other
 #print axioms Mp.anyOf_dec_iff
 #print axioms Mp.anyOf_str_iff
+#print axioms Mp.Dec.ofString_alphabet
+#print axioms Mp.Dec.not_numeral_of_foreign_byte
+#print axioms Mp.Dec.empty_not_numeral
